@@ -23,11 +23,25 @@ class Leaf(ComplexModel):
     v = Integer
 
 
+class Geo(ComplexModel):
+    __namespace__ = TNS
+    lat = Integer
+    lon = Integer(sub_name='lng')                 # a member that travels under another name, two levels down
+
+
+class Place(ComplexModel):
+    __namespace__ = TNS
+    label = Unicode(sub_name='title')
+    origin = Geo
+    corners = Array(Geo)
+
+
 class Sub(ComplexModel):
     __namespace__ = TNS
     x = Integer
     ys = Array(Integer)
     leaves = Array(Leaf)
+    place = Place
 
 
 class Item(ComplexModel):
@@ -160,13 +174,16 @@ def _objects():
         'shared_instance': Root(n=3, items=[Item(a=1, subs=[shared], twin=[shared])], one=shared),
         'deep': Root(n=4, items=[Item(a=i, subs=[Sub(x=10 * i + j, ys=[j]) for j in range(3)]) for i in range(3)]),
         'empty': Root(),
+        'renamed_deep': Root(n=5, one=Sub(x=1, place=Place(label='home', origin=Geo(lat=1, lon=2),
+                                                         corners=[Geo(lat=3, lon=4), Geo(lon=5)])),
+                             items=[Item(a=1, subs=[Sub(x=2, place=Place(label='far', origin=Geo(lon=-7)))])]),
     }
 
 
 @obligation('C03.roundtrip.object_to_simple_dict', targets=['spyne.protocol.dictdoc.simple:SimpleDictDocument.object_to_simple_dict',
                                                             'spyne.protocol.dictdoc.simple:SimpleDictDocument.simple_dict_to_object'],
-            bounded="5 object shapes: flat with reserved characters, nested arrays, an instance shared by three slots, "
-                    "3x3 nested arrays, empty",
+            bounded="6 object shapes: flat with reserved characters, nested arrays, an instance shared by three slots, "
+                    "3x3 nested arrays, empty, members renamed with sub_name two and three levels down (also in arrays)",
             desc="the flattened form produced for an object maps back to an equal object")
 def roundtrip(c):
     name = c.choose(sorted(_objects()), 'shape')
@@ -229,14 +246,18 @@ def parse_qs(c):
 
 
 @obligation('C03.primitive_return', targets=['spyne.protocol.http:HttpRpc.serialize'],
-            bounded="integer / text / decimal / date / bytes results",
+            bounded="integer / text / decimal / date / bytes results, text types with a declared encoding (utf-16, latin-1, utf-8)",
             desc="a single primitive return value is sent as its exact text or bytes")
 def primitive_return(c):
     import datetime
     import decimal
     T, val, want = c.choose([(Integer, 2 ** 70, b'1180591620717411303424'), (Unicode, u'hé &=;', u'hé &=;'.encode('utf8')),
                              (Decimal, decimal.Decimal('1.50'), b'1.50'), (Date, datetime.date(2020, 2, 29), b'2020-02-29'),
-                             (ByteArray, [b'\x00\xff', b'raw'], b'\x00\xffraw')], 'result')
+                             (ByteArray, [b'\x00\xff', b'raw'], b'\x00\xffraw'),
+                             # a text type that declares its own encoding is sent in that encoding
+                             (Unicode(encoding='utf-16'), u'h\xe9', u'h\xe9'.encode('utf-16')),
+                             (Unicode(encoding='latin-1'), u'caf\xe9 \xfc', u'caf\xe9 \xfc'.encode('latin-1')),
+                             (Unicode(encoding='utf-8'), u'\u4e2d', u'\u4e2d'.encode('utf-8'))], 'result')
 
     class Svc(ServiceBase):
         @rpc(_returns=T)
@@ -247,6 +268,9 @@ def primitive_return(c):
     c.check('callable_returns', out.returned, detail=repr(out))
     c.check('status_200', bool(seen) and seen[0][0].startswith('200'), detail=seen)
     c.check('exact_text_or_bytes', body == want, detail=(body, want))
+    if seen:
+        cl = [v for k, v in seen[0][1] if k.lower() == 'content-length']
+        c.check('content_length_is_the_byte_count', cl == [str(len(want))], detail=(cl, len(want)))
 
 
 @obligation('C03.out_headers', targets=['spyne.protocol.http:HttpRpc.serialize', 'spyne.protocol.http:_header_to_bytes'],
